@@ -44,6 +44,14 @@ Theorem C18_text_shows_the_integer :
   (forall r, display_rnum r = spelling_rnum r) /\ (forall p, In p display_number_samples -> snd p = dec (fst p)).
 Proof. exact text_shows_the_integer. Qed.
 
+(* String -> Number on strings outside the tabulated domain (a finite list of probes regenerated on every run: digit
+   strings up to 51 characters around 2^16, 2^32, 2^64, signs, blanks, non-ASCII numerals, random strings): no panic,
+   and exactly the unbounded specification, whose values are below 1000 *)
+Theorem C18_number_of_probed_strings : forall s r, In (s, r) number_of_string_probes ->
+  exists o, r = Some o /\ opt_eqb N.eqb o (number_string_spec s) = true.
+Proof. exact number_of_probed_strings. Qed.
+Theorem C18_number_string_spec_in_range : forall s v, number_string_spec s = Some v -> (v < 1000)%N.
+Proof. exact number_string_spec_range. Qed.
 Print Assumptions C18_charge_try_from_exact.
 Print Assumptions C18_charge_into_inverse.
 Print Assumptions C18_charge_injective.
@@ -57,3 +65,5 @@ Print Assumptions C18_number_of_digit_strings.
 Print Assumptions C18_bond_kind.
 Print Assumptions C18_symbol_conversions.
 Print Assumptions C18_text_shows_the_integer.
+Print Assumptions C18_number_of_probed_strings.
+Print Assumptions C18_number_string_spec_in_range.
